@@ -285,6 +285,55 @@ pub fn strict_wellformed(s: &[u8]) -> bool {
     }
 }
 
+/// Serialised form with every well-formed *other* extension (a singleton that is not t / u / x, in front of
+/// the private-use part, followed by one or more 2-8 character lower-case alphanumeric subtags) removed.
+/// C03 allows a library to support such extensions and C04 fixes only the relative order of t, u and x, so
+/// the output checks are applied to the remainder. Returns None when an other-singleton is present but its
+/// segment is not of that shape (repeated singleton, empty body, bad subtag, upper case).
+pub fn strip_other_extensions(s: &str) -> Option<(String, usize)> {
+    let toks: Vec<&str> = s.split('-').collect();
+    let mut keep: Vec<&str> = vec![];
+    let mut seen: Vec<&str> = vec![];
+    let mut removed = 0usize;
+    let mut i = 0;
+    // the language identifier part ends at the first one-character subtag
+    while i < toks.len() && toks[i].len() != 1 {
+        keep.push(toks[i]);
+        i += 1;
+    }
+    while i < toks.len() {
+        let t = toks[i];
+        if t.len() == 1 && t.eq_ignore_ascii_case("x") {
+            keep.extend_from_slice(&toks[i..]);
+            break;
+        }
+        if t.len() == 1 && !matches!(t, "t" | "u" | "T" | "U") {
+            if !t.bytes().all(|c| c.is_ascii_lowercase() || c.is_ascii_digit()) || seen.contains(&t) {
+                return None;
+            }
+            seen.push(t);
+            let mut n = 0;
+            i += 1;
+            while i < toks.len() && toks[i].len() != 1 {
+                let b = toks[i];
+                if !(2..=8).contains(&b.len()) || !b.bytes().all(|c| c.is_ascii_lowercase() || c.is_ascii_digit()) {
+                    return None;
+                }
+                n += 1;
+                i += 1;
+            }
+            if n == 0 {
+                return None;
+            }
+            removed += 1;
+            continue;
+        }
+        keep.push(t);
+        i += 1;
+    }
+    Some((keep.join("-"), removed))
+}
+
 pub fn classify_locale(input: &[u8]) -> Zone {
     classify_locale_full(input).0
 }
@@ -354,6 +403,7 @@ fn classify_inner(input: &[u8], reasons: &mut Vec<&'static str>) -> Zone {
     let (mut seen_u, mut seen_t) = (false, false);
     let mut outside: Option<&'static str> = None;
     let mut other = false;
+    let mut seen_other: Vec<u8> = vec![];
     while i < rest.len() {
         let s = rest[i];
         if s.len() != 1 {
@@ -457,7 +507,11 @@ fn classify_inner(input: &[u8], reasons: &mut Vec<&'static str>) -> Zone {
                 }
             }
             _ => {
-                // other extension: body = (2..8 alnum)+
+                // other extension: body = (2..8 alnum)+; a repeated singleton is ill-formed whatever the letter
+                if seen_other.contains(&c) {
+                    return Zone::MustReject("repeated singleton");
+                }
+                seen_other.push(c);
                 other = true;
                 let start = i;
                 while i < rest.len() && (2..=8).contains(&rest[i].len()) {
